@@ -58,6 +58,17 @@ def judge(ctx, case, o, guilty, stats, recheck):
         return
     if o.get("build") != "ok":
         raise ToolError("input for case could not be built with gimli's writer: %s / %s" % (o.get("build"), json.dumps(case)[:400]))
+    if case.get("version") == 5 and "lockinds" in o:
+        want = {}
+        for r in case["refs"]:
+            if r.get("loc"):
+                want.setdefault("root%d" % -r["from"] if r["from"] < 0 else "e%d" % r["from"], []).append(r["loc"])
+        camel = {"offset_pair": "OffsetPair", "start_end": "StartEnd", "start_length": "StartLength", "startx_endx": "StartxEndx",
+                 "startx_length": "StartxLength", "default_location": "DefaultLocation"}
+        for holder, locs in want.items():
+            got = [k for k in o["lockinds"].get(holder, []) if k != "BaseAddress"]
+            if got != [camel[l] for l in locs]:
+                raise ToolError("input builder produced location entries %s for %s, asked for %s" % (got, holder, locs))
     invalid = set(case["invalid"])
     unf_ok = o["unfiltered"].get("ok") is True
     refs = case["refs"]
@@ -238,7 +249,7 @@ def run(ctx):
                 dict(MaxN=4, MaxUnits=2, MaxEdges=0, MaxEdgesBig=2, Salt=0, EmitMod=7, CheckSplit="FALSE", KindN=0, FewSubsets="TRUE", RootN=0),
                 dict(MaxN=5, MaxUnits=1, MaxEdges=0, MaxEdgesBig=1, Salt=7, EmitMod=3, CheckSplit="FALSE", KindN=0, FewSubsets="FALSE", RootN=0)]
     stats = {"runs": 0, "exact": 0, "expected_err": 0}
-    decisive, dtags = set(), set()
+    decisive, dtags, dlocs = set(), set(), set()
     allk = set()
     guilty = set()
     recheck = []
@@ -248,9 +259,13 @@ def run(ctx):
         cases = []
         for i, c in enumerate(read_ndjson(r.cases_path)):
             v, f, a = ENCODINGS[(i + consts["Salt"]) % len(ENCODINGS)]
+            if c.get("want5"):
+                v = 5          # the case enumerates .debug_loclists entry kinds
             c.update(id="%d.%d" % (ri, i), version=v, format=f, asz=a, flow=FLOWS[(i // 3) % 3], be=(i % 5 == 0))
             cases.append(c)
             decisive.update(c["decisive"]); dtags.update(c["dtags"])
+            if v == 5:
+                dlocs.update(c.get("dlocs", []))
             # single-unit graphs are also converted as a split unit through a skeleton unit
             # (FilterUnitSection::new_split -> ConvertUnit::convert_split_with_filter)
             if c["nunits"] == 1 and i % 2 == 0:
@@ -281,8 +296,11 @@ def run(ctx):
     for k in kinds_tbl:
         if k not in decisive:
             ctx.cov["not_exercised"].append("reference kind never decisive: " + k)
+    for k in ("offset_pair", "start_end", "start_length", "startx_endx", "startx_length", "default_location"):
+        if k not in dlocs:
+            ctx.cov["not_exercised"].append("location entry kind never decisive in a DWARF 5 case: " + k)
     extra = {"required_subsets_replayed": stats["runs"], "exact_closure": stats["exact"], "expected_errors": stats["expected_err"],
-             "decisive_kinds": sorted(decisive), "decisive_tags": len(dtags)}
+             "decisive_kinds": sorted(decisive), "decisive_tags": len(dtags), "decisive_loc_entry_kinds": sorted(dlocs)}
 
     # ---------------------------------------------------------------- V
     kinds = ["attr_unit", "attr_info", "x_call", "x_callref", "x_paramref", "x_deref_type", "x_regval_type", "x_const_type",
